@@ -46,7 +46,8 @@ def run(chk, repo: Repo):
     chk.rule("C05-R1", "global NumPy generator used only under `rng is None`; other draws go through rng / random_state=rng; helpers receive rng; nothing in the sampling layers re-seeds the global generator", floor=12)
     chk.rule("C05-R2", "mutable parameters the log-density depends on ⊆ parameters the sampler depends on", floor=8)
     chk.rule("C05-R3", "Gaussian/GMRF solves: solver table, triangular orientation matches the guard, single right-hand side handled; the location is an additive, unscaled term of the draw", floor=4)
-    chk.rule("C05-R4", "Distribution.sample: conditional refused before _sample; one draw -> CUQIarray(geometry), several -> Samples(geometry); not overridden", floor=4)
+    chk.rule("C05-R4", "Distribution.sample: conditional refused before _sample; one draw -> CUQIarray(geometry), several -> Samples(geometry); not overridden; "
+                       "a result allocated with N columns has every column 0..N-1 written", floor=4)
     chk.rule("C05-R5", "product-form families: size (N, dim) transposed (or (dim, N)); parameters not indexed by the sample-count variable", floor=8)
     dist = repo.cls(DIST)
     samplers = []
